@@ -26,6 +26,14 @@ type RsEnc struct {
 	Seed int64
 	InHs bool // the handshake is not finished: a Set Chunk Size sent now is handshake filler, not a message
 	nf   int  // fresh chunk stream ids handed out so far
+	nc   int  // commands encoded so far
+}
+
+// cmdCsid: commands travel on chunk stream 3 in every deployed client, but the peer is free to use any id:
+// half of the commands use 3, the others an id of the 2-byte and 3-byte basic header forms or another small one.
+func (e *RsEnc) cmdCsid() int {
+	e.nc++
+	return []int{3, 64, 3, 319, 3, 320, 3, 65599, 3, 8}[(int(e.Seed%10)+10+e.nc)%10]
 }
 
 func NewRsEnc(seed int64) *RsEnc { return &RsEnc{Cs: 128, Seed: seed} }
@@ -556,7 +564,7 @@ func (e *RsEnc) Bytes(m RsMsg, stream string) (b []byte, cuts []int) {
 		if m.A == "publish" || m.A == "play" {
 			msid = 1
 		}
-		return e.Split(3, 20, msid, 0, RsCommandPayload(m.A, m.S, stream))
+		return e.Split(e.cmdCsid(), 20, msid, 0, RsCommandPayload(m.A, m.S, stream))
 	case "cmd3":
 		var p []byte
 		switch m.S {
